@@ -821,6 +821,56 @@ theorem rel_alignAssignOps_go (fuel : Nat) (ls : List OutLine) : Rel ls (alignAs
             · exact SameBut.refl x
           · exact SameBut.refl x
 
+/-! ## `align_assignment_ops` inserts white space only -/
+
+theorem splitAtByte_append (t : Text) (i : Nat) : (splitAtByte t i).1 ++ (splitAtByte t i).2 = t := by
+  induction t generalizing i with
+  | nil => simp [splitAtByte]
+  | cons c cs ih =>
+    unfold splitAtByte
+    split
+    · simp
+    · simp only [List.cons_append, ih]
+
+theorem nonWs_padAt (t : Text) (i n : Nat) : nonWs (padAt t i n) = nonWs t := by
+  have h : padAt t i n = (splitAtByte t i).1 ++ spaces n ++ (splitAtByte t i).2 := rfl
+  rw [h, nonWs_append, nonWs_append, nonWs_spaces, List.append_nil, ← nonWs_append, splitAtByte_append]
+
+theorem nonWs_alignAssignOps_go (fuel : Nat) (ls : List OutLine) :
+    (alignAssignOps.go ls fuel).map (fun x => nonWs x.text) = ls.map (fun x => nonWs x.text) := by
+  induction fuel generalizing ls with
+  | zero =>
+    cases ls with
+    | nil => unfold alignAssignOps.go; rfl
+    | cons o rest => unfold alignAssignOps.go; rfl
+  | succ n ih =>
+    cases ls with
+    | nil => unfold alignAssignOps.go; rfl
+    | cons o rest =>
+      unfold alignAssignOps.go
+      split
+      · simp only [List.map_cons, ih rest]
+      · split
+        · simp only [List.map_cons, ih rest]
+        · rename_i op0 hop
+          simp only []
+          generalize hP : (fun (x : OutLine) =>
+            !x.skipAlign && leadingWs x.text == leadingWs o.text && (findAssignOp x.text).isSome) = P
+          have hsplit := takeWhile_append_drop_length P rest
+          have : o :: rest = (o :: rest.takeWhile P) ++ rest.drop (rest.takeWhile P).length := by
+            simp [hsplit]
+          conv => rhs; rw [this]
+          rw [List.map_append, List.map_append, ih, List.map_map]
+          congr 1
+          apply List.map_congr_left
+          intro x _
+          simp only [Function.comp]
+          split
+          · split
+            · exact nonWs_padAt _ _ _
+            · rfl
+          · rfl
+
 theorem rel_alignedLines (cfg : Config) (ls : List OutLine) : Rel ls (alignedLines cfg ls) := by
   unfold alignedLines
   cases cfg.alignVar <;> cases cfg.alignAsg
